@@ -495,6 +495,12 @@ class Ev:
             return self.read(self.key(e))
         if isinstance(e, ast.Subscript):
             full = None
+            if getattr(self, 'drop_zero_index', False) and \
+                    const_of(e.slice) == 0 and not isinstance(
+                        e.value, (ast.Tuple, ast.List)):
+                v0 = self.ev(e.value)
+                if isinstance(v0, Rat):
+                    return v0
             if isinstance(e.value, (ast.Name, ast.Attribute, ast.Subscript)):
                 full = self.key(e)
                 if full in self.heap:
@@ -595,6 +601,8 @@ class Ev:
             c in ik for c in '<>=')
         if mask or ':' in ik:
             return base
+        if ik == '0' and getattr(self, 'drop_zero_index', False):
+            return base     # trailing singleton axis of (N, 1) records
         pure = None
         if base.d == ONEP and len(base.n.d) == 1:
             (k, c), = base.n.d.items()
